@@ -25,6 +25,7 @@ import typing
 import uuid
 
 from edb.common import ast, span
+from edb.common import ordered
 from edb.common import typeutils
 from edb.edgeql import ast as qlast
 from edb.ir import ast as irast
@@ -171,7 +172,10 @@ class EdgeQLPathInfo(Base):
     is_distinct: bool = True
 
     # A subset of paths necessary to perform joining.
-    path_bonds: typing.Set[tuple[irast.PathId, bool]] = ast.field(factory=set)
+    # (Insertion-ordered: the join conditions are generated by iterating
+    # over this, and PathId hashes differ between processes.)
+    path_bonds: ordered.OrderedSet[tuple[irast.PathId, bool]] = ast.field(
+        factory=ordered.OrderedSet)
 
     # Whether to ignore namespaces when looking at path outputs.
     # TODO: Maybe instead, Relation should have a way of specifying
